@@ -208,3 +208,38 @@ def nestedHolds (handlers : List Nat) (assigns : List (Value × Value)) (calls :
   assigns.all (fun a => !pyNe a.1 a.2 || handlers.all fun h => countCalls calls h a.1 a.2 == countAssigns assigns a.1 a.2)
 
 end Indi.Spec.Dev
+
+/-! ### the enabled switches of groups and properties, as a function of the history alone
+
+  "Enabled" is what the driver's code last said: `vector.enabled = b` sets that property's own switch, `group.enabled = b`
+  the group's; a property is announced while both are on.  This specification does not look at the driver model's
+  state evolution at all: the last assignment wins, nothing else touches a switch. -/
+
+namespace Indi.Spec.Dev
+open Indi.Dev
+
+def lastGroupFlag (init : Bool) (g : Nat) : List Op → Bool
+  | [] => init
+  | .enableGroup g' b :: rest => lastGroupFlag (if g' = g then b else init) g rest
+  | _ :: rest => lastGroupFlag init g rest
+
+def lastVecFlag (init : Bool) (g v : Nat) : List Op → Bool
+  | [] => init
+  | .enableVec g' v' b :: rest => lastVecFlag (if g' = g && v' = v then b else init) g v rest
+  | _ :: rest => lastVecFlag init g v rest
+
+/-- the observed device carries exactly the switches the history assigned -/
+def flagsHold (init : Device) (ops : List Op) (obs : Device) : Bool :=
+  obs.groups.length == init.groups.length &&
+  (List.range init.groups.length).all fun gi =>
+    match init.groups[gi]?, obs.groups[gi]? with
+    | some g0, some g1 =>
+      g1.enabled == lastGroupFlag g0.enabled gi ops &&
+      g1.vecs.length == g0.vecs.length &&
+      (List.range g0.vecs.length).all fun vi =>
+        match g0.vecs[vi]?, g1.vecs[vi]? with
+        | some v0, some v1 => v1.enabled == lastVecFlag v0.enabled gi vi ops
+        | _, _ => false
+    | _, _ => false
+
+end Indi.Spec.Dev
